@@ -60,6 +60,8 @@ CFGS = {
     "ReplayLifeGaps": rep(LIFE, MaxSeq="3", MaxSaves="5", MaxAcks="5", MaxNotify="5", MaxEnds="6", Gaps=GAPS),
     # ---- witness generation (bin/mkwitness substitutes @TARGET@)
     "WitData": wit(DATA, Savers='{"p", "c"}', MaxSaves="3", MaxAcks="3"),
+    "WitData3": wit(DATA, Savers='{"p", "c"}', MaxCrash="0", MaxSaves="2", MaxAcks="1", MaxGen="1", FailSaves="FALSE"),
+    "WitData4": wit(DATA, Savers='{"p", "c"}', MaxCrash="0", MaxSaves="2", MaxAcks="1", MaxGen="1"),
     "WitData2": wit(DATA, MaxCrash="0", MaxSaves="2", MaxAcks="2", MaxGen="1"),
     "WitGen": wit(GEN, MaxAcks="2", MaxSaves="1"),
     "WitLifeN": wit(LIFE, MaxNotify="2", MaxEnds="0", MaxSaves="0", MaxAcks="0", Kinds="{}", AllowClose="FALSE", AutoCkpt="FALSE"),
@@ -84,7 +86,7 @@ CFGS = {
     "MCReopenQ": mc(GEN, MaxSeq="3", Kinds='{"mut"}', Keys='{"user"}', OldEvents="FALSE", BadEvents="FALSE", MaxEnds="2",
                     EndCauses='{"statechanged"}', MaxCrash="0", MaxSaves="0", MaxAcks="1", MaxGen="6"),
     "MCReopen": mc(GEN, MaxSeq="3", Kinds='{"mut", "adv"}', Keys='{"user"}', OldEvents="FALSE", BadEvents="FALSE", MaxEnds="2",
-                   EndCauses='{"statechanged", "socket"}', MaxCrash="0", MaxSaves="1", MaxAcks="1", MaxGen="6"),
+                   EndCauses='{"statechanged"}', MaxCrash="0", MaxSaves="0", MaxAcks="1", MaxGen="6"),
     "SimReopen": simc(GEN, 44, MaxSeq="4", Kinds='{"mut", "del", "adv"}', Keys='{"user"}', OldEvents="FALSE", BadEvents="FALSE", MaxEnds="3",
                       EndCauses='{"statechanged", "socket"}', MaxCrash="0", MaxSaves="1", MaxAcks="2", MaxGen="8"),
     "WitReopen": wit(GEN, MaxSeq="3", Kinds='{"mut"}', Keys='{"user"}', OldEvents="FALSE", BadEvents="FALSE", MaxEnds="1",
